@@ -36,6 +36,8 @@ THEOREMS = [
     dict(name="Snow.C19.reported_spec", clause="the reported set is keys(custom) minus keys(default), key names at any depth", strength="full"),
     dict(name="Snow.C19.unknown_keys_inert", clause="unknown keys at any depth change no derived constant and no exception", strength="full"),
     dict(name="Snow.C19.layering_exact", clause="layering with unknown keys present (edge case 'valid key in the wrong place' as a hypothesis)", strength="full"),
+    dict(name="Snow.C19.partial_file_loads", clause="a partial file (inside the default key tree once unknown names are removed) never makes _loadConfig raise", strength="full"),
+    dict(name="Snow.C19.unknown_keys_inert_file", clause="whole load: file and file without its unknown keys give the same constants or the same exception", strength="full"),
     dict(name="Snow.C19.derived_congr", clause="the constants depend on the configuration only through the generated read paths", strength="full"),
     dict(name="Snow.C19.derived_V", clause="volume = area x height", strength="full"),
     dict(name="Snow.C19.derived_A", clause="area = length x width", strength="full"),
